@@ -169,7 +169,9 @@ def mon_store_immutable(steps, meta):
             removed_by_env.add(unhexs(st.tok[1])[len(CANON_ROOT):])
         if st.dump is None:
             continue
-        cur = {p: e for p, e in st.dump.items() if (under("/k/store", p) or under("/k/projects", p)) and e[0] == "file"}
+        # files of both stores, and the snapshot directories themselves (an empty snapshot is still a snapshot)
+        cur = {p: e for p, e in st.dump.items() if ((under("/k/store", p) or under("/k/projects", p)) and e[0] == "file")
+               or (e[0] == "dir" and re.match(r"^/k/projects/[^/]+/[^/]+$", p))}
         if prev is not None:
             for p, e in prev.items():
                 c = cur.get(p)
@@ -260,11 +262,11 @@ def run_cases(rep, exe_impl, exe_model, cases, monitors, projection=project_defa
     if diverged:
         cid, script, a, b = diverged[0]
         first = next((i for i, (x, y) in enumerate(zip(a, b)) if x != y), min(len(a), len(b)))
-        rep.violation("correspondence", {"case": cid, "script": script.split("\n"), "implementation": a, "model": b,
+        rep.defer_divergence({"case": cid, "script": script.split("\n"), "implementation": a, "model": b,
                                          "first_difference": {"index": first, "implementation": a[first:first + 3], "model": b[first:first + 3]},
                                          "what": "implementation and model differ on %d case(s) under the property's projection; the monitors found no failing input" % len(diverged),
-                                         "broken": "correspondence (world driver)"}, found_input=False)
-        found = True
+                                         "broken": "correspondence (world driver)"})
+        # reported by conclude_proofs unless a later phase finds a concrete failing input
     for p in problems:
         rep.notes.append(p)
         if not found:
@@ -408,11 +410,11 @@ def run_crash_cases(rep, exe_impl, exe_model, cases, monitors, projection=projec
     if diverged:
         cid, script, a, b = diverged[0]
         first = next((i for i, (x, y) in enumerate(zip(a, b)) if x != y), min(len(a), len(b)))
-        rep.violation("correspondence", {"case": cid, "script": script.split("\n"), "implementation": a, "model": b, "runner": "crash",
+        rep.defer_divergence({"case": cid, "script": script.split("\n"), "implementation": a, "model": b, "runner": "crash",
                                          "first_difference": {"index": first, "implementation": a[first:first + 3], "model": b[first:first + 3]},
                                          "what": "implementation and model differ on %d crash case(s); the monitors found no failing input" % len(diverged),
-                                         "broken": "correspondence (world driver, crash runner)"}, found_input=False)
-        found = True
+                                         "broken": "correspondence (world driver, crash runner)"})
+        # reported by conclude_proofs unless a later phase finds a concrete failing input
     for p in problems:
         rep.notes.append(p)
     return found, validated
@@ -488,7 +490,10 @@ def enumerate_cases(exe_impl, tier, kind, seed=1, only=None):
                     # is a different environment, not a failing call
                     errs = [e for e in errs if e != "ENOENT"]
                 if tier == "quick" and len(errs) > 2:
-                    errs = rng.sample(errs, 2)
+                    # the expected conditions at the open of the source (deleted / forbidden) are always tried
+                    keep = [e for e in errs if e in ("ENOENT", "EACCES") and cline.startswith("open $/w/")]
+                    rest = [e for e in errs if e not in keep]
+                    errs = keep + rng.sample(rest, max(1, 2 - len(keep)))
                 for e in errs:
                     script = wc.scenario_script(sc, "oracle fail %d %s" % (k, e))
                     cases.append(("%s@%d:%s" % (sc["name"], k, e), script, {"scenario": sc["name"], "k": k, "call": cname, "errno": e, "callline": cline, "phase": phases[k]}))
@@ -1094,11 +1099,11 @@ def run_cases_known(rep, exe_impl, exe_model, cases, monitors, known):
     if diverged:
         cid, script, a, b = diverged[0]
         first = next((i for i, (x, y) in enumerate(zip(a, b)) if x != y), min(len(a), len(b)))
-        rep.violation("correspondence", {"case": cid, "script": script.split("\n"), "implementation": a, "model": b,
+        rep.defer_divergence({"case": cid, "script": script.split("\n"), "implementation": a, "model": b,
                                          "first_difference": {"index": first, "implementation": a[first:first + 3], "model": b[first:first + 3]},
                                          "what": "implementation and model differ on %d case(s); the monitors found no failing input" % len(diverged),
-                                         "broken": "correspondence (world driver)"}, found_input=False)
-        found = True
+                                         "broken": "correspondence (world driver)"})
+        # reported by conclude_proofs unless a later phase finds a concrete failing input
     for p in problems:
         rep.notes.append(p)
         if not found:
